@@ -1,0 +1,40 @@
+//go:build verif
+
+// Contracts for contract-based deductive verification (checked by /verif/govc).
+// This file is comment-only and compiled only with the build tag "verif".
+
+package cache
+
+// ---- C10: permission checks and crash-safe save ------------------------------------------------
+
+//@ pure fsPresent(path string) bool = fs_exists(path) && !fs_staterr(path)
+
+//@ func (*cache).checkPerm ints=bv64
+//@   requires p != nil && ((p.prefer | p.reject) &^ 0777) == 0
+//@   let m = fs_mode(path)
+//@   let badType = (m & os.ModeType) == os.ModeSymlink || (isDir && (m & os.ModeDir) == 0) || (!isDir && (m & os.ModeType) != 0)
+//@   let badPerm = (m & 0777 & p.reject) != 0
+//@   ensures[C10] fs_staterr(path) ==> result1 != nil
+//@   ensures[C10] !fs_staterr(path) && !fs_exists(path) ==> result0 == false && result1 == nil
+//@   ensures[C10] fsPresent(path) && (badType || badPerm) ==> result1 != nil
+//@   ensures[C10] fsPresent(path) && !badType && !badPerm ==> result0 == true && result1 == nil
+
+//@ func (*cache).mkdirAll ints=bv64
+//@   requires p != nil && ((p.prefer | p.reject) &^ 0777) == 0
+//@   let m = fs_mode(path)
+//@   let bad = (m & os.ModeType) == os.ModeSymlink || (m & os.ModeDir) == 0 || (m & 0777 & p.reject) != 0
+//@   ensures[C10] fs_staterr(path) || (fsPresent(path) && bad) ==> result != nil && fs_mkdirs() == old(fs_mkdirs())
+//@   ensures[C10] fsPresent(path) && !bad ==> result == nil && fs_mkdirs() == old(fs_mkdirs())
+
+// Snapshot serialises the cache with encoding/json (reflection; outside the verified subset).
+//@ assume-contract (*cache).Snapshot
+//@   modifies nothing
+
+//@ func (*cache).Save
+//@   requires cch != nil
+//@   let tmp = cch.filePath + ".saving"
+//@   ensures[C10] tmp != cch.filePath
+//@   ensures[C10] forall q string :: fs_written(q) && !old(fs_written(q)) ==> q == tmp
+//@   ensures[C10] !fs_written(cch.filePath) || old(fs_written(cch.filePath))
+//@   ensures[C10] result == nil ==> fs_written(tmp) && fs_renames() == old(fs_renames()) + 1 && fs_rename_from() == tmp && fs_rename_to() == cch.filePath
+//@   ensures[C10] result != nil ==> fs_renames() == old(fs_renames())
